@@ -120,7 +120,7 @@ impl Prop for C16 {
         vec![Leg {
             name: "random",
             kind: LegKind::Random {
-                cases: tier.pick(1500, 15_000),
+                cases: tier.pick(30000, 150000),
             },
             workers: 16,
             build: Build::Normal,
